@@ -420,7 +420,12 @@ class Tracker:
             return h is None or h.mixed or (not h.wild and not h.steady)
         return False
 
-    def taint(self, it, why):
+    def taint(self, it, why, mask=None):
+        h = getattr(mask, "hom", None)
+        if h is not None and not h.wild and not h.mixed and h.why \
+                and h.mask is None:
+            self.event(it, "E7", f"a test deciding a branch or a validity "
+                                 f"guard is {h.why}")
         if self.tainted is None:
             fn = it.fn_stack[-1].name if it.fn_stack else "?"
             self.tainted = (f"{why} in {fn}, line "
@@ -518,7 +523,7 @@ class Tracker:
         if name in ("any", "all"):
             if self.unsteady(recv):
                 self.taint(it, "a branch is decided by a test whose outcome "
-                               "may change with the scale")
+                               "may change with the scale", recv)
             if isinstance(res, (AArr, AScal)):
                 return self.tagged(res, Hom((), False, None,
                                             not self.unsteady(recv)), recv)
@@ -574,7 +579,7 @@ class Tracker:
         if name in ("np.any", "np.all") and args:
             if self.unsteady(args[0]):
                 self.taint(it, "a branch is decided by a test whose outcome "
-                               "may change with the scale")
+                               "may change with the scale", args[0])
             if isinstance(res, (AArr, AScal)):
                 return self.tagged(res, Hom((), False, None,
                                             not self.unsteady(args[0])))
